@@ -90,7 +90,7 @@ struct options_t
   std::uint64_t until = ~std::uint64_t{0}; // skip cases with index > until
   std::string out;
   std::string only_entry;              // run only entries whose name starts with this
-  unsigned alarm_s = 120;
+  unsigned alarm_s = 60;
   std::vector<std::string> extra;      // harness specific
 };
 inline options_t &opts()
